@@ -537,8 +537,10 @@ fn observe(b: &[u8], r: &mut Rng) -> (String, String) {
         }
         Ok(m) => {
             let main = probe(&m, 2048);
-            // length of the frame: serialise into a buffer that is certainly large enough
-            let mut big = vec![0u8; 4096 + b.len()];
+            // length of the frame: serialise into a buffer that is certainly large enough;
+            // the buffer is DIRTY (a port re-uses its packet buffer): every octet of every
+            // defined field has to be written, not or-ed into what was there before
+            let mut big = vec![0xffu8; 4096 + b.len()];
             let n = m.serialize(&mut big).map_err(|e| e.to_string()).unwrap_or(0);
             let req = match FuzzMessage::deserialize(&big[..n]) {
                 Ok(m2) => m2 == m,
